@@ -4,6 +4,23 @@
 
 namespace ccl::semantic {
 
+namespace {
+
+//! Names mentioned in definitions that are not aliases of any constituent
+[[nodiscard]] std::unordered_set<std::string> UnresolvedGlobals(const Schema& schema) {
+  std::unordered_set<std::string> result{};
+  for (const auto& cst : schema) {
+    for (const auto& name : rslang::ExtractUGlobals(cst.definition)) {
+      if (!schema.FindAlias(name).has_value()) {
+        result.emplace(name);
+      }
+    }
+  }
+  return result;
+}
+
+} // anonymous namespace
+
 // Note: cstList is not copy/move constructed because its type source must stay bound to this object
 RSCore::RSCore(const RSCore& rhs)
   : identifiers{ rhs.identifiers }, thesaurus{ rhs.thesaurus }, schema{ rhs.schema } {
@@ -66,6 +83,10 @@ bool RSCore::SetAliasFor(const EntityUID target, const std::string& newValue, co
 void RSCore::ResetAliases() {
   StrSubstitutes substitutes{};
   identifiers.Clear();
+  const auto unresolved = UnresolvedGlobals(schema);
+  for (const auto& name : unresolved) { // Note: a new alias should not give a meaning to a mention that has none
+    identifiers.ReserveAlias(name);
+  }
   for (const auto uid : List()) {
     const auto& cst = GetRS(uid);
     const auto id = identifiers.RegisterEntity(uid, cst.type);
@@ -75,6 +96,9 @@ void RSCore::ResetAliases() {
     if (cst.alias != id.alias) {
       substitutes.insert({ cst.alias, id.alias });
     }
+  }
+  for (const auto& name : unresolved) {
+    identifiers.FreeAlias(name);
   }
   const auto translator = CreateTranslator(substitutes);
   schema.SubstitueAliases(translator);
